@@ -38,7 +38,8 @@ theorem forM_ok {α : Type} (f : α → R Unit) : ∀ (l : List α), (∀ x ∈ 
   | nil => intro _; rfl
   | cons a as ih =>
     intro h
-    rw [List.forM_cons, h a List.mem_cons_self]
+    show (f a >>= fun _ => as.forM f) = _
+    rw [h a List.mem_cons_self]
     exact ih (fun x hx => h x (List.mem_cons_of_mem _ hx))
 
 /-! ### `outdated` -/
@@ -47,6 +48,9 @@ theorem mem_outdated (reg seen : List Nat) (p : Nat) :
     p ∈ outdated reg seen ↔ p < 8192 ∧ p ∈ reg ∧ p ∉ seen := by
   unfold outdated
   simp [List.mem_filter, List.mem_range]
+
+theorem mem_outdated_iff (reg seen : List Nat) (p : Nat) :
+    p ∈ outdated reg seen ↔ Outdated reg seen p := mem_outdated reg seen p
 
 theorem outdated_sorted (reg seen : List Nat) : (outdated reg seen).Pairwise (· < ·) := by
   unfold outdated
@@ -130,26 +134,380 @@ theorem constructEvents_length : ∀ (reqs : List (Nat × Req)) (tag : Nat),
   | nil => intro _; rfl
   | cons x rest ih => intro tag; obtain ⟨p, r⟩ := x; simp [constructEvents, ih]
 
-/-- the context after the construct callbacks for `reqs` -/
-def ctxAfter (c : Ctx) (reqs : List (Nat × Req)) : Ctx :=
-  { c with nextTag := c.nextTag + reqs.length,
-           trace := (constructEvents c.nextTag reqs).reverse ++ c.trace }
-
 /-- the `for entry in table { construct; changeset.insert }` loop -/
-theorem foldl_construct {β : Type} (g : β → Nat × Req) : ∀ (l : List β) (c : Ctx) (acc : List (Change Handler)),
+theorem foldl_construct {β : Type} (pid : β → Nat) (req : β → Req) :
+    ∀ (l : List β) (c : Ctx) (acc : List (Change Handler)),
     l.foldl (fun (a : Ctx × List (Change Handler)) x =>
-        ((construct a.1 (g x).2).2, a.2 ++ [Change.insert (g x).1 (construct a.1 (g x).2).1])) (c, acc)
-      = (ctxAfter c (l.map g), acc ++ (built c.nextTag (l.map g)).map fun x => Change.insert x.1 x.2) := by
+        ((construct a.1 (req x)).2, a.2 ++ [Change.insert (pid x) (construct a.1 (req x)).1])) (c, acc)
+      = (ctxAfter c (l.map fun x => (pid x, req x)),
+          acc ++ (built c.nextTag (l.map fun x => (pid x, req x))).map fun x => Change.insert x.1 x.2) := by
   intro l
   induction l with
   | nil => intro c acc; simp [ctxAfter, constructEvents, built]
   | cons x rest ih =>
     intro c acc
     rw [List.foldl_cons, construct_eq, ih]
-    rcases hg : g x with ⟨p, r⟩
-    simp only [List.map_cons, hg, built, constructEvents, ctxAfter, List.length_cons, List.reverse_cons,
-      List.append_assoc, List.singleton_append, List.map_cons, List.cons_append, List.nil_append]
+    simp only [List.map_cons, built, constructEvents, ctxAfter, List.length_cons, List.reverse_cons,
+      List.append_assoc, List.cons_append, List.nil_append]
     congr 2
     omega
+
+/-! ### the section prologue shared by both processors -/
+
+theorem prologue (data : Bytes) (h : 12 ≤ data.length) :
+    subR data.length 4 = .ok (data.length - 4) ∧
+    sliceR data 8 (data.length - 4) = .ok ((data.drop 8).take (data.length - 12)) ∧
+    byteAt data 0 = .ok (byteD data 0) := by
+  refine ⟨?_, ?_, byteAt_ok data 0 (by omega)⟩
+  · unfold subR; simp; omega
+  · have e : data.length - 4 = 8 + (data.length - 12) := by omega
+    rw [e, sliceR_ok data 8 _ (by omega)]
+
+/-! ### `PatProcessor::section` -/
+
+theorem patSection_eq (c : Ctx) (reg : List Nat) (data : Bytes) (h : 12 ≤ data.length) :
+    patSection c reg data =
+      if byteD data 0 ≠ 0 then .ok (c, reg, [])
+      else
+        let entries := specPat ((data.drop 8).take (data.length - 12))
+        let reqs := patRequests entries
+        .ok (ctxAfter c reqs, entries.map PatEntry.pid,
+          (built c.nextTag reqs).map (fun x => Change.insert x.1 x.2)
+            ++ (outdated reg (entries.map PatEntry.pid)).map Change.remove) := by
+  obtain ⟨p1, p2, p3⟩ := prologue data h
+  unfold patSection
+  rw [p1]; simp only [R.ok_bind]
+  rw [p2]; simp only [R.ok_bind]
+  rw [p3]; simp only [R.ok_bind]
+  by_cases ht : byteD data 0 = 0
+  · have hb : ¬ ((byteD data 0 != 0) = true) := by simp [ht]
+    rw [if_neg hb, if_neg (by simp [ht])]
+    unfold patProgramsAll
+    rw [patPrograms_eq _ _ (Nat.lt_succ_self _)]
+    simp only [R.ok_bind]
+    rw [removes_ok]
+    simp only [R.ok_bind, R.pure_eq]
+    rw [foldl_construct PatEntry.pid]
+    simp only [List.nil_append]
+    rfl
+  · have hb : (byteD data 0 != 0) = true := by simp [ht]
+    rw [if_pos hb, if_pos ht]
+    rfl
+
+/-! ### the Debug walk over a PMT (`touch` configuration) never panics -/
+
+theorem touchDescItem_ok (d : Nat × Bytes) : touchDescItem (classify d) = .ok () := by
+  unfold classify
+  by_cases hm : d.2.length < typedMinLength d.1
+  · rw [if_pos hm]; rfl
+  · rw [if_neg hm]
+    unfold touchDescItem
+    by_cases h5 : d.1 = 5
+    · rw [h5] at hm
+      have : 4 ≤ d.2.length := by simp [typedMinLength] at hm; omega
+      simp [h5, regFields_eq d.2 this]
+    by_cases h10 : d.1 = 10
+    · have := languages_eq (d.2.length + 1) d.2 (Nat.lt_succ_self _)
+      simp [h10, languagesAll, this]
+    by_cases h14 : d.1 = 14
+    · rw [h14] at hm
+      have : 3 ≤ d.2.length := by simp [typedMinLength] at hm; omega
+      simp [h14, maxBitrate_eq d.2 this]
+    by_cases h40 : d.1 = 40
+    · rw [h40] at hm
+      have : 4 ≤ d.2.length := by simp [typedMinLength] at hm; omega
+      simp [h40, avcFields_eq d.2 this]
+    simp [h5, h10, h14, h40]
+
+theorem touchDescs_ok (b : Bytes) : touchDescs b = .ok () := by
+  unfold touchDescs descIterAll
+  rw [descIter_eq _ b (Nat.lt_succ_self _)]
+  simp only [R.ok_bind]
+  apply forM_ok
+  intro x hx
+  unfold specDescItems at hx
+  rcases List.mem_append.1 hx with hx | hx
+  · obtain ⟨d, -, rfl⟩ := List.mem_map.1 hx
+    exact touchDescItem_ok d
+  · unfold trailingItems at hx
+    split at hx
+    · cases hx
+    · split at hx <;> (rw [List.mem_singleton] at hx; subst hx; rfl)
+
+theorem touchPmt_ok (sect : Bytes) (h : specPmtAccept sect) : touchPmt sect = .ok () := by
+  unfold touchPmt
+  rw [pmtPcrPid_eq sect (by have := h.1; omega), pmtDescriptorBytes_eq sect h, pmtStreams_eq sect h]
+  simp only [R.ok_bind, touchDescs_ok]
+  apply forM_ok
+  intro s _
+  rfl
+
+/-! ### `PmtProcessor::section` -/
+
+theorem pmtSection_eq (c : Ctx) (pmtPid : Nat) (reg : List Nat) (data : Bytes) (h : 12 ≤ data.length) :
+    pmtSection c pmtPid reg data =
+      let body := (data.drop 8).take (data.length - 12)
+      if ¬ specPmtAccept body then .ok (c, reg, [])
+      else if byteD data 0 ≠ 2 then .ok (c, reg, [])
+      else
+        let reqs := pmtRequests pmtPid (specPcrPid body) (specProgramDescBytes body) (streamsOf body)
+        .ok (ctxAfter c reqs, (streamsOf body).map StreamInfo.pid,
+          (built c.nextTag reqs).map (fun x => Change.insert x.1 x.2)
+            ++ (outdated reg ((streamsOf body).map StreamInfo.pid)).map Change.remove) := by
+  obtain ⟨p1, p2, p3⟩ := prologue data h
+  dsimp only
+  unfold pmtSection
+  rw [p1]; simp only [R.ok_bind]
+  rw [p2]; simp only [R.ok_bind]
+  rw [pmtFromBytes_eq]
+  by_cases ha : specPmtAccept ((data.drop 8).take (data.length - 12))
+  · rw [if_neg (not_not_intro ha)]
+    simp only [if_pos ha, R.ok_bind]
+    rw [p3]; simp only [R.ok_bind]
+    by_cases ht : byteD data 0 = 2
+    · have hb : ¬ ((byteD data 0 != 2) = true) := by simp [ht]
+      rw [if_neg hb, if_neg (by simp [ht])]
+      rw [pmtStreams_eq _ ha, pmtPcrPid_eq _ (by have := ha.1; omega), pmtDescriptorBytes_eq _ ha]
+      simp only [R.ok_bind]
+      cases hc : c.cfg.touch <;>
+        simp only [Bool.false_eq_true, if_false, if_true, touchPmt_ok _ ha, R.ok_bind]
+      all_goals
+        rw [foldl_construct StreamInfo.pid, removes_ok]
+        simp only [R.ok_bind, R.pure_eq, List.nil_append]
+        rfl
+    · have hb : (byteD data 0 != 2) = true := by simp [ht]
+      rw [if_pos hb, if_pos ht]
+      rfl
+  · rw [if_pos ha]
+    simp only [if_neg ha, R.ok_bind]
+    rfl
+
+/-! ### the routing table after the queued changes -/
+
+theorem get_removes {H : Type} : ∀ (rem : List Nat) (t : Tab H) (p : Nat),
+    (applyChanges t (rem.map Change.remove)).get p = if p ∈ rem then none else t.get p := by
+  intro rem
+  induction rem with
+  | nil => intro t p; simp [applyChanges_nil]
+  | cons a rest ih =>
+    intro t p
+    rw [List.map_cons, applyChanges_cons, ih]
+    simp only [applyChange, Tab.get_remove, List.mem_cons]
+    by_cases h1 : p ∈ rest <;> by_cases h2 : p = a <;> simp [h1, h2]
+
+theorem get_inserts_last {H : Type} (t : Tab H) (pre post : List (Nat × H)) (p : Nat) (h : H)
+    (hpost : ∀ x ∈ post, x.1 ≠ p) :
+    (applyChanges t ((pre ++ (p, h) :: post).map fun x => Change.insert x.1 x.2)).get p = some h := by
+  rw [List.map_append, List.map_cons]
+  have := get_applyChanges_last t (pre.map fun x => Change.insert x.1 x.2)
+    (post.map fun x => Change.insert x.1 x.2) (Change.insert p h)
+    (by
+      intro x hx
+      obtain ⟨y, hy, rfl⟩ := List.mem_map.1 hx
+      exact hpost y hy)
+  exact this
+
+theorem get_inserts_untouched {H : Type} (t : Tab H) (l : List (Nat × H)) (p : Nat)
+    (hp : p ∉ l.map (·.1)) :
+    (applyChanges t (l.map fun x => Change.insert x.1 x.2)).get p = t.get p := by
+  apply get_applyChanges_untouched
+  intro ch hch
+  obtain ⟨y, hy, rfl⟩ := List.mem_map.1 hch
+  intro e
+  exact hp (List.mem_map.2 ⟨y, hy, e⟩)
+
+theorem lastFor_some {α : Type} (l : List (Nat × α)) (p : Nat) (a : α) (h : lastFor l p = some a) :
+    ∃ pre post, l = pre ++ (p, a) :: post ∧ ∀ x ∈ post, x.1 ≠ p := by
+  unfold lastFor at h
+  rw [Option.map_eq_some_iff] at h
+  obtain ⟨⟨q, a'⟩, hf, ha⟩ := h
+  simp only at ha
+  subst ha
+  rw [List.find?_eq_some_iff_append] at hf
+  obtain ⟨hq, as, bs, hl, hno⟩ := hf
+  have hq' : q = p := by simpa using hq
+  subst hq'
+  refine ⟨bs.reverse, as.reverse, ?_, ?_⟩
+  · have := congrArg List.reverse hl
+    simpa using this
+  · intro x hx
+    have := hno x (List.mem_reverse.1 hx)
+    simpa using this
+
+theorem lastFor_none {α : Type} (l : List (Nat × α)) (p : Nat) (h : lastFor l p = none) :
+    p ∉ l.map (·.1) := by
+  unfold lastFor at h
+  rw [Option.map_eq_none_iff, List.find?_eq_none] at h
+  intro hm
+  obtain ⟨y, hy, e⟩ := List.mem_map.1 hm
+  have := h y (List.mem_reverse.2 hy)
+  simp [e] at this
+
+theorem lastFor_of_split {α : Type} (pre post : List (Nat × α)) (p : Nat) (a : α)
+    (hpost : ∀ x ∈ post, x.1 ≠ p) : lastFor (pre ++ (p, a) :: post) p = some a := by
+  unfold lastFor
+  rw [List.reverse_append, List.reverse_cons, List.append_assoc, List.find?_append]
+  have : post.reverse.find? (fun x => x.1 == p) = none := by
+    rw [List.find?_eq_none]
+    intro x hx
+    simpa using hpost x (List.mem_reverse.1 hx)
+  rw [this]
+  simp
+
+/-- the table after `inserts ++ removes`, slot by slot, is the spec's function update -/
+theorem get_applied {H : Type} (t : Tab H) (listed : List (Nat × H)) (reg : List Nat) (p : Nat) :
+    (applyChanges t (listed.map (fun x => Change.insert x.1 x.2)
+        ++ (outdated reg (listed.map (·.1))).map Change.remove)).get p
+      = applied t.get listed reg p := by
+  rw [applyChanges_append, get_removes]
+  unfold applied
+  cases hl : lastFor listed p with
+  | some a =>
+    obtain ⟨pre, post, e, hpost⟩ := lastFor_some listed p a hl
+    have hseen : p ∈ listed.map (·.1) := by rw [e]; simp
+    have hno : p ∉ outdated reg (listed.map (·.1)) := fun hm => ((mem_outdated _ _ _).1 hm).2.2 hseen
+    rw [if_neg hno]
+    simp only
+    rw [e]
+    exact get_inserts_last t pre post p a hpost
+  | none =>
+    have hns := lastFor_none listed p hl
+    simp only
+    rw [get_inserts_untouched t listed p hns]
+    by_cases ho : p ∈ outdated reg (listed.map (·.1))
+    · rw [if_pos ho, if_pos ((mem_outdated_iff _ _ _).1 ho)]
+    · rw [if_neg ho, if_neg (fun hh => ho ((mem_outdated_iff _ _ _).2 hh))]
+
+/-! ### from a delivered section to the handler's `consume` -/
+
+/-- the CRC layer hands on only sections of at least 12 bytes (headers + CRC) -/
+theorem crcPass_true_len (b : Bool) (d : Bytes) (h : Psi.crcPass b d = .ok true) : 12 ≤ d.length := by
+  apply Classical.byContradiction
+  intro hn
+  have hl : d.length < 12 := by omega
+  unfold Psi.crcPass at h
+  cases hb : byteAt d 1 with
+  | panic s => rw [hb] at h; cases h
+  | ok b1 =>
+    rw [hb] at h
+    by_cases ha : b1 &&& 128 = 0
+    · simp [assertR, ha] at h
+    · simp [assertR, ha, Psi.COMMON, Psi.TSH, hl] at h
+
+theorem runDeliveries_one (sect : Ctx → List Nat → Bytes → R (Ctx × List Nat × List (Change Handler)))
+    (c : Ctx) (reg : List Nat) (d : Psi.Delivery) (c1 : Ctx) (reg1 : List Nat) (chg1 : List (Change Handler))
+    (hcrc : Psi.crcPass c.cfg.bypassCrc d.bytes = .ok true)
+    (hs : sect c reg d.bytes = .ok (c1, reg1, chg1)) :
+    runDeliveries sect c reg [d] = .ok (c1, reg1, chg1) := by
+  simp [runDeliveries, hcrc, hs]
+
+theorem runDeliveries_nil (sect : Ctx → List Nat → Bytes → R (Ctx × List Nat × List (Change Handler)))
+    (c : Ctx) (reg : List Nat) : runDeliveries sect c reg [] = .ok (c, reg, []) := rfl
+
+/-- every PID a PAT lists is a 13-bit PID -/
+theorem pat_pids_13bit (body : Bytes) : ∀ p ∈ (specPat body).map PatEntry.pid, p < 8192 := by
+  intro p hp
+  obtain ⟨e, he, rfl⟩ := List.mem_map.1 hp
+  unfold specPat at he
+  obtain ⟨g, -, rfl⟩ := List.mem_map.1 he
+  have := readBits_lt g 19 13
+  unfold patEntryOf
+  split <;> simp only [PatEntry.pid] <;> omega
+
+/-- every PID a PMT lists is a 13-bit PID -/
+theorem pmt_pids_13bit (body : Bytes) : ∀ p ∈ (streamsOf body).map StreamInfo.pid, p < 8192 := by
+  intro p hp
+  obtain ⟨s, hs, rfl⟩ := List.mem_map.1 hp
+  unfold streamsOf at hs
+  obtain ⟨e, he, rfl⟩ := List.mem_map.1 hs
+  have := (specStreams_props _ (specStreamBytes body) (Nat.lt_succ_self _)).2.2 e he
+  have := this.2.2.1
+  simp only [StreamEnc.info]
+  omega
+
+theorem patRequests_pids (es : List PatEntry) : (patRequests es).map (·.1) = es.map PatEntry.pid := by
+  unfold patRequests; simp
+
+theorem pmtRequests_pids (pmtPid pcr : Nat) (pd : Bytes) (ss : List StreamInfo) :
+    (pmtRequests pmtPid pcr pd ss).map (·.1) = ss.map StreamInfo.pid := by
+  unfold pmtRequests; simp
+
+theorem patSection_tid0 (c : Ctx) (reg : List Nat) (data : Bytes) (h : 12 ≤ data.length)
+    (ht : byteD data 0 = 0) :
+    patSection c reg data = .ok (ctxAfter c (patRequests (specPat (sectionBody data))),
+      (specPat (sectionBody data)).map PatEntry.pid, patChanges c reg (sectionBody data)) := by
+  rw [patSection_eq c reg data h, if_neg (by simp [ht])]
+  rfl
+
+theorem pmtSection_tid2 (c : Ctx) (pmtPid : Nat) (reg : List Nat) (data : Bytes) (h : 12 ≤ data.length)
+    (ha : specPmtAccept (sectionBody data)) (ht : byteD data 0 = 2) :
+    pmtSection c pmtPid reg data = .ok (ctxAfter c (pmtRequests pmtPid (specPcrPid (sectionBody data))
+        (specProgramDescBytes (sectionBody data)) (streamsOf (sectionBody data))),
+      (streamsOf (sectionBody data)).map StreamInfo.pid, pmtChanges c pmtPid reg (sectionBody data)) := by
+  rw [pmtSection_eq c pmtPid reg data h]
+  unfold sectionBody at ha ⊢
+  dsimp only
+  rw [if_neg (not_not_intro ha), if_neg (by simp [ht])]
+  rfl
+
+/-- the PAT filter on a packet that completes exactly one section which passes the CRC layer -/
+theorem consume_pat_one (s : Psi.St) (reg : List Nat) (c : Ctx) (pk : Pk) (s' : Psi.St) (d : Psi.Delivery)
+    (hP : Psi.consume Psi.table s pk.bytes = .ok (s', [d]))
+    (hcrc : Psi.crcPass c.cfg.bypassCrc d.bytes = .ok true)
+    (ht : byteD d.bytes 0 = 0) :
+    App.consume (.pat s reg) c pk = .ok (.pat s' ((specPat (sectionBody d.bytes)).map PatEntry.pid),
+      ctxAfter c (patRequests (specPat (sectionBody d.bytes))), patChanges c reg (sectionBody d.bytes)) := by
+  have hl := crcPass_true_len _ _ hcrc
+  simp only [App.consume, hP, R.ok_bind]
+  rw [runDeliveries_one patSection c reg d _ _ _ hcrc (patSection_tid0 c reg d.bytes hl ht)]
+  rfl
+
+/-- the PMT filter on a packet that completes exactly one section which passes the CRC layer -/
+theorem consume_pmt_one (pid prog : Nat) (s : Psi.St) (reg : List Nat) (c : Ctx) (pk : Pk) (s' : Psi.St)
+    (d : Psi.Delivery)
+    (hP : Psi.consume Psi.table s pk.bytes = .ok (s', [d]))
+    (hcrc : Psi.crcPass c.cfg.bypassCrc d.bytes = .ok true)
+    (ha : specPmtAccept (sectionBody d.bytes)) (ht : byteD d.bytes 0 = 2) :
+    App.consume (.pmt pid prog s reg) c pk = .ok (.pmt pid prog s' ((streamsOf (sectionBody d.bytes)).map StreamInfo.pid),
+      ctxAfter c (pmtRequests pid (specPcrPid (sectionBody d.bytes)) (specProgramDescBytes (sectionBody d.bytes))
+        (streamsOf (sectionBody d.bytes))), pmtChanges c pid reg (sectionBody d.bytes)) := by
+  have hl := crcPass_true_len _ _ hcrc
+  simp only [App.consume, hP, R.ok_bind]
+  rw [runDeliveries_one (fun c r d => pmtSection c pid r d) c reg d _ _ _ hcrc
+    (pmtSection_tid2 c pid reg d.bytes hl ha ht)]
+  rfl
+
+/-! ### packets that change no routing -/
+
+/-- an elementary-stream handler queues nothing and stays the same instance (tag) -/
+theorem consume_pes_shape (tag : Nat) (f : PesFilter.F) (c : Ctx) (pk : Pk) (h' : Handler) (c' : Ctx)
+    (chg : List (Change Handler)) (h : App.consume (.pes tag f) c pk = .ok (h', c', chg)) :
+    (∃ f', h' = .pes tag f') ∧ chg = [] := by
+  simp only [App.consume] at h
+  cases h1 : PesFilter.consume f pk.bytes with
+  | panic s => rw [h1] at h; cases h
+  | ok r =>
+    obtain ⟨f', evs⟩ := r
+    rw [h1] at h
+    simp only [R.ok_bind] at h
+    cases h2 : esEvents c.cfg.touch tag pk.bytes pk.off c evs with
+    | panic s => rw [h2] at h; cases h
+    | ok c2 =>
+      rw [h2] at h
+      simp only [R.ok_bind, R.pure_eq, R.ok.injEq, Prod.mk.injEq] at h
+      exact ⟨⟨f', h.1.symm⟩, h.2.2.symm⟩
+
+/-- a table filter on a packet that completes no section: only its reassembly state moves -/
+theorem consume_pat_none (s : Psi.St) (reg : List Nat) (c : Ctx) (pk : Pk) (s' : Psi.St)
+    (hP : Psi.consume Psi.table s pk.bytes = .ok (s', [])) :
+    App.consume (.pat s reg) c pk = .ok (.pat s' reg, c, []) := by
+  simp only [App.consume, hP, R.ok_bind, runDeliveries]
+  rfl
+
+theorem consume_pmt_none (pid prog : Nat) (s : Psi.St) (reg : List Nat) (c : Ctx) (pk : Pk) (s' : Psi.St)
+    (hP : Psi.consume Psi.table s pk.bytes = .ok (s', [])) :
+    App.consume (.pmt pid prog s reg) c pk = .ok (.pmt pid prog s' reg, c, []) := by
+  simp only [App.consume, hP, R.ok_bind, runDeliveries]
+  rfl
 
 end Ts.Lemmas.C05
